@@ -32,19 +32,25 @@ Lemma lookup_all_key_val_add_any sec k : sec <> sec0 \/ k <> k0 -> lookup_all_ke
 Proof. intros H. unfold lookup_all_key_val. rewrite lookup_all_args_add_any by exact H. reflexivity. Qed.
 End AddOther.
 
-(* every key the container converter reads outside the table of single-valued string keys *)
-Definition OTHER : list str :=
-  [s2l "AddCapability"; s2l "AddDevice"; s2l "Annotation"; s2l "AutoUpdate"; s2l "CgroupsMode"; s2l "ContainerName"; s2l "ContainersConfModule"; s2l "DefaultDependencies"; s2l "DropCapability"; s2l "Environment"; s2l "EnvironmentFile"; s2l "Exec"; s2l "ExposeHostPort"; s2l "GIDMap"; s2l "GlobalArgs"; s2l "Group"; s2l "Image"; s2l "Label"; s2l "LogDriver"; s2l "LogOpt"; s2l "Mask"; s2l "Mount"; s2l "Network"; s2l "NoNewPrivileges"; s2l "Notify"; s2l "Pod"; s2l "PodmanArgs"; s2l "ReadOnly"; s2l "RemapGid"; s2l "RemapUid"; s2l "RemapUidSize"; s2l "RemapUsers"; s2l "Rootfs"; s2l "SeccompProfile"; s2l "Secret"; s2l "SecurityLabelDisable"; s2l "SecurityLabelFileType"; s2l "SecurityLabelLevel"; s2l "SecurityLabelNested"; s2l "SecurityLabelType"; s2l "StartWithPod"; s2l "SubGIDMap"; s2l "SubUIDMap"; s2l "Sysctl"; s2l "UIDMap"; s2l "Unmask"; s2l "User"; s2l "UserNS"; s2l "VolatileTmp"; s2l "Volume"; s2l "NetworkAlias"; s2l "Ulimit"; s2l "DNS"; s2l "DNSOption"; s2l "DNSSearch"; s2l "GroupAdd"; s2l "AddHost"; s2l "Tmpfs"; s2l "RunInit"; s2l "EnvironmentHost"; s2l "ReadOnlyTmpfs"; s2l "HealthCmd"; s2l "HealthInterval"; s2l "HealthOnFailure"; s2l "HealthRetries"; s2l "HealthStartPeriod"; s2l "HealthTimeout"; s2l "HealthStartupCmd"; s2l "HealthStartupInterval"; s2l "HealthStartupRetries"; s2l "HealthStartupSuccess"; s2l "HealthStartupTimeout"; s2l "PublishPort"].
+(* every key the container converter reads outside its three option tables (single string / one per assignment / boolean) *)
+Definition COMMON : list str :=
+  [s2l "AddCapability"; s2l "AddDevice"; s2l "Annotation"; s2l "AutoUpdate"; s2l "CgroupsMode"; s2l "ContainerName"; s2l "ContainersConfModule"; s2l "DefaultDependencies"; s2l "DropCapability"; s2l "Environment"; s2l "EnvironmentFile"; s2l "Exec"; s2l "ExposeHostPort"; s2l "GIDMap"; s2l "GlobalArgs"; s2l "Group"; s2l "Image"; s2l "Label"; s2l "LogDriver"; s2l "LogOpt"; s2l "Mask"; s2l "Mount"; s2l "Network"; s2l "NoNewPrivileges"; s2l "Notify"; s2l "Pod"; s2l "PodmanArgs"; s2l "ReadOnly"; s2l "RemapGid"; s2l "RemapUid"; s2l "RemapUidSize"; s2l "RemapUsers"; s2l "Rootfs"; s2l "SeccompProfile"; s2l "Secret"; s2l "SecurityLabelDisable"; s2l "SecurityLabelFileType"; s2l "SecurityLabelLevel"; s2l "SecurityLabelNested"; s2l "SecurityLabelType"; s2l "StartWithPod"; s2l "SubGIDMap"; s2l "SubUIDMap"; s2l "Sysctl"; s2l "UIDMap"; s2l "Unmask"; s2l "User"; s2l "UserNS"; s2l "VolatileTmp"; s2l "Volume"; s2l "HealthCmd"; s2l "HealthInterval"; s2l "HealthOnFailure"; s2l "HealthRetries"; s2l "HealthStartPeriod"; s2l "HealthTimeout"; s2l "HealthStartupCmd"; s2l "HealthStartupInterval"; s2l "HealthStartupRetries"; s2l "HealthStartupSuccess"; s2l "HealthStartupTimeout"; s2l "PublishPort"].
+Definition KS : list str := map fst pt_from_container_unit_string_keys.
+Definition KA : list str := map fst pt_from_container_unit_all_string_keys.
+Definition KB : list str := map fst pt_from_container_unit_bool_keys.
 
-Ltac in_other := unfold OTHER; cbn [In]; repeat (first [left; reflexivity | right]).
+Lemma in_of_mem k l : mem_str k l = true -> In k l.
+Proof. unfold mem_str. intros H. apply existsb_exists in H. destruct H as [x [Hx He]]. destruct (str_eqb_spec k x); [subst; exact Hx|discriminate]. Qed.
+Ltac in_common := apply in_of_mem; vm_compute; reflexivity.
 
 Section Same.
-Variables (u : unit) (k0 raw : str).
-Hypothesis HK : ~ In k0 OTHER.
+Variables (u : unit) (k0 raw : str) (OT : list str).
+Hypothesis Hc : incl COMMON OT.
+Hypothesis HK : ~ In k0 OT.
 Notation sec0 := c_CONTAINER_SECTION.
 Notation u' := (add_entry u sec0 k0 raw).
 
-Ltac side := first [ left; discriminate | right; let X := fresh in intros X; apply HK; rewrite <- X; in_other ].
+Ltac side := first [ left; discriminate | right; let X := fresh in intros X; apply HK; rewrite <- X; apply Hc; in_common ].
 Ltac rw_same :=
   repeat first [ rewrite (lk_add_any u sec0 k0 raw) by side | rewrite (lk_all_add_any u sec0 k0 raw) by side
                | rewrite (lookup_bool_add_any u sec0 k0 raw) by side | rewrite (lookup_last_value_add_any u sec0 k0 raw) by side
@@ -287,46 +293,23 @@ Ltac lel := lazymatch goal with |- (let x := ?e in @?f x) = ?r -> ?P => refine (
 (* ---- the frame of one single-valued string key in the whole container command ---- *)
 Section Frame.
 Variables (podman : str) (exists_path : str -> bool) (kill_fixed mount_nl : bool).
-Variables (u : unit) (k0 flag0 raw : str) (c : N) (v : str) (pre post : list (str * str)).
+Variables (u : unit) (k0 raw : str) (OT : list str) (ins : list str).
 Notation sec0 := c_CONTAINER_SECTION.
 Notation u' := (add_entry u sec0 k0 raw).
-Hypothesis HK : ~ In k0 OTHER.
-Hypothesis Htable : pt_from_container_unit_string_keys = pre ++ (k0, flag0) :: post.
-Hypothesis Hnd : NoDup (map fst pt_from_container_unit_string_keys).
-Hypothesis Hfresh : values_raw u sec0 k0 = [].
-Hypothesis Huq : unquote_value raw = Some (c :: v).
+Hypothesis Hc : incl COMMON OT.
+Hypothesis HK : ~ In k0 OT.
 
-Definition Ins (b1 b2 : list str) : Prop := exists p q, b1 = p ++ q /\ b2 = p ++ [flag0; c :: v] ++ q.
+(* the second command is the first with [ins] inserted at one place *)
+Definition Ins (b1 b2 : list str) : Prop := exists p q, b1 = p ++ q /\ b2 = p ++ ins ++ q.
+
+(* the segment that holds the three option tables: proved per table kind below *)
+Hypothesis Hhead : forall base cname s1 s2 b1 b2 t1 t2,
+  ct_run_head u base cname s1 = COk (b1, t1) -> ct_run_head u' base cname s2 = COk (b2, t2) -> Ins b1 b2.
 
 Lemma Ins_Rel b1 b2 c1 c2 : Ins b1 b2 -> Rel b1 c1 b2 c2 -> Ins c1 c2.
 Proof. intros (p & q & -> & ->) (d & -> & ->). exists p, (q ++ d). rewrite <- !app_assoc. split; reflexivity. Qed.
 
-Ltac side := first [ left; discriminate | right; let X := fresh in intros X; apply HK; rewrite <- X; in_other ].
-
-Lemma raw_nonempty : raw <> [].
-Proof. intros ->. vm_compute in Huq. discriminate. Qed.
-
-Lemma ct_run_head_frame base cname s1 s2 b1 b2 t1 t2 :
-  ct_run_head u base cname s1 = COk (b1, t1) -> ct_run_head u' base cname s2 = COk (b2, t2) -> Ins b1 b2.
-Proof.
-  unfold ct_run_head. cbv zeta. intros R1 R2. revert R1.
-  bel. intros a1 H1. bel. intros cg1 Hc1. bel. intros a2 H2. bel. intros a3 H3. intros E1.
-  assert (Eb1 : b1 = add_bools u sec0 pt_from_container_unit_bool_keys a3) by congruence. clear E1. subst b1.
-  revert R2. bel. intros a1' H1'. bel. intros cg1' Hc1'. bel. intros a2' H2'. bel. intros a3' H3'. intros E2.
-  assert (Eb2 : b2 = add_bools u' sec0 pt_from_container_unit_bool_keys a3') by congruence. clear E2. subst b2.
-  rewrite (log_driver_same u k0 raw HK) in H1'. rewrite H1 in H1'. injection H1' as <-.
-  rewrite (lk_add_any u sec0 k0 raw) in Hc1' by side. rewrite Hc1 in Hc1'. injection Hc1' as <-.
-  rewrite (log_opt_same u k0 raw HK) in H2'.
-  rewrite (add_all_strings_same u k0 raw) in H3' by (unfold pt_from_container_unit_all_string_keys; repeat (constructor; [cbn [fst]; side|]); constructor).
-  rewrite (add_bools_same u k0 raw) by (unfold pt_from_container_unit_bool_keys; repeat (constructor; [cbn [fst]; side|]); constructor).
-  rewrite Htable in H2, H2'. pose proof Hnd as Hnd'. rewrite Htable in Hnd'.
-  destruct (strings_frame u sec0 pre post k0 flag0 raw c v
-              (handle_log_opt u sec0 a1 ++ [L "--cgroups"; match cg1 with Some (c1 :: s) => c1 :: s | _ => L "split" end])
-              Hnd' Hfresh Huq raw_nonempty (add_strings_no_panic _ _ _ _ _ H2)) as [F1 F2].
-  rewrite F1 in H2. rewrite F2 in H2'. injection H2 as <-. injection H2' as <-.
-  eapply Ins_Rel; [|eapply Rel_trans; [eapply add_all_strings_rel; [exact H3|exact H3']|apply add_bools_rel]].
-  eexists _, _. split; [rewrite app_assoc; reflexivity|rewrite app_assoc; reflexivity].
-Qed.
+Ltac side := first [ left; discriminate | right; let X := fresh in intros X; apply HK; rewrite <- X; apply Hc; in_common ].
 
 Lemma devices_rel devs : forall a1 a2, Rel a1 (devices_loop exists_path devs a1) a2 (devices_loop exists_path devs a2).
 Proof.
@@ -377,7 +360,7 @@ Proof.
   assert (R11 : Rel x10 x11 y10 y11) by (rl E11 F11).
   assert (R12 : Rel x11 x12 y11 y12) by (rl E12 F12).
   assert (R13 : Rel x12 x13 y12 y13) by (rl E13 F13).
-  rewrite (user_same u k0 raw HK) in G14. rewrite (user_mappings_same u k0 raw HK) in G15.
+  rewrite (user_same u k0 raw OT Hc HK) in G14. rewrite (user_mappings_same u k0 raw OT Hc HK) in G15.
   pose proof (user_rel _ _ _ _ _ _ H14 G14) as R14. pose proof (user_mappings_rel _ _ _ _ _ _ _ H15 G15) as R15.
   repeat (eapply Rel_trans; [eassumption|]). apply Rel_refl.
 Qed.
@@ -424,7 +407,7 @@ Proof.
   lel; intros sec Hsec; subst sec. bel; intros [y1 q1] G1. bel; intros stype' Hst'. bel; intros [y2 q2] G2. bel; intros sysl' Hsy'. lel; intros svcf' Hsf'. intros Ef'.
   assert (b1 = x2) by congruence. assert (b2 = y2) by congruence. subst b1 b2.
   same_lk Hst Hst'.
-  rewrite (networks_same u k0 raw HK) in G1. pose proof (networks_rel _ _ _ _ _ _ _ _ _ _ _ H1 G1) as R1.
+  rewrite (networks_same u k0 raw OT Hc HK) in G1. pose proof (networks_rel _ _ _ _ _ _ _ _ _ _ _ H1 G1) as R1.
   eapply Rel_trans; [exact R1|].
   assert (N : forall (A B : list str) (sv sv' : unit) (r r' : list str) (w w' : unit), 
     (do nt <- @lk berr u sec0 (L "Notify");
@@ -448,7 +431,7 @@ Proof.
 Qed.
 
 Lemma ct_service_same path svc : ct_service podman kill_fixed u' path svc = ct_service podman kill_fixed u path svc.
-Proof. unfold ct_service. rewrite (container_name_same u k0 raw HK), (base_same u k0 raw HK). rewrite (lookup_all_key_val_add_any u sec0 k0 raw) by side. reflexivity. Qed.
+Proof. unfold ct_service. rewrite (container_name_same u k0 raw OT Hc HK), (base_same u k0 raw OT Hc HK). rewrite (lookup_all_key_val_add_any u sec0 k0 raw) by side. reflexivity. Qed.
 
 Lemma ct_service_outputs path s1 s2 c1 e1 b1 t1 c2 e2 b2 t2 :
   ct_service podman kill_fixed u path s1 = COk (c1, e1, b1, t1) -> ct_service podman kill_fixed u path s2 = COk (c2, e2, b2, t2) -> c1 = c2 /\ e1 = e2 /\ b1 = b2.
@@ -469,12 +452,12 @@ Proof.
 Qed.
 
 (* the whole command: the two ExecStart lines differ by exactly the option pair of the added key *)
-Theorem container_string_key_frame path tbl svc1 sp1 t1 svc2 sp2 t2 :
+Theorem container_key_frame path tbl svc1 sp1 t1 svc2 sp2 t2 :
   from_container podman exists_path kill_fixed mount_nl u path tbl = COk (svc1, sp1, t1) ->
   from_container podman exists_path kill_fixed mount_nl u' path tbl = COk (svc2, sp2, t2) ->
   exists before1 before2 p q,
     vals svc1 SEC_S (L "ExecStart") = before1 ++ [quote_words (p ++ q)] /\
-    vals svc2 SEC_S (L "ExecStart") = before2 ++ [quote_words (p ++ [flag0; c :: v] ++ q)].
+    vals svc2 SEC_S (L "ExecStart") = before2 ++ [quote_words (p ++ ins ++ q)].
 Proof.
   unfold from_container. cbv zeta. intros R1 R2. revert R1.
   bel; intros [i svc0] Hp. intros R1. apply lift_ok in R1. revert R1. bel; intros image0 Hi. bel; intros rootfs0 Hr.
@@ -497,50 +480,210 @@ Proof.
                | revert H1 G1; unfold handle_image_source; destruct (_ || _); [destruct (tbl_get tbl _); [|discriminate]|];
                  intros X Y; injection X as <- _; injection Y as <- _; reflexivity ]); subst image1'.
   all: rewrite ct_service_same in G2; destruct (ct_service_outputs _ _ _ _ _ _ _ _ _ _ _ H2 G2) as (-> & -> & ->).
-  all: pose proof (ct_run_head_frame _ _ _ _ _ _ _ _ H3 G3) as I3.
+  all: pose proof (Hhead _ _ _ _ _ _ _ _ H3 G3) as I3.
   all: pose proof (ct_net_notify_rel _ _ _ _ _ _ _ _ _ H4 G4) as R4.
   all: pose proof (ct_security_rel _ _ _ _ H5 G5) as R5.
-  all: rewrite (volumes_same u k0 raw HK) in G6; pose proof (volumes_rel _ _ _ _ _ _ _ _ _ _ _ _ _ H6 G6) as R6.
+  all: rewrite (volumes_same u k0 raw OT Hc HK) in G6; pose proof (volumes_rel _ _ _ _ _ _ _ _ _ _ _ _ _ H6 G6) as R6.
   all: pose proof (ct_labels_ports_rel _ _ _ _ _ _ H7 G7) as R7.
   all: rewrite (lookup_all_args_add_any u sec0 k0 raw) in G8 by side; pose proof (mounts_loop_rel _ _ _ _ _ _ _ _ _ _ _ _ H8 G8) as R8.
-  all: rewrite (health_same u k0 raw HK) in G9; unfold handle_health in H9, G9; pose proof (add_strings_rel _ _ _ _ _ _ _ H9 G9) as R9.
-  all: rewrite (pod_same u k0 raw HK) in G10; assert (R10 : Rel a9 a10 b9 b10) by (eapply pod_rel; [exact H10|exact G10]).
-  all: rewrite (podman_args_same u k0 raw HK) in G11; rewrite (lookup_last_value_add_any u sec0 k0 raw) in G11 by side.
+  all: rewrite (health_same u k0 raw OT Hc HK) in G9; unfold handle_health in H9, G9; pose proof (add_strings_rel _ _ _ _ _ _ _ H9 G9) as R9.
+  all: rewrite (pod_same u k0 raw OT Hc HK) in G10; assert (R10 : Rel a9 a10 b9 b10) by (eapply pod_rel; [exact H10|exact G10]).
+  all: rewrite (podman_args_same u k0 raw OT Hc HK) in G11; rewrite (lookup_last_value_add_any u sec0 k0 raw) in G11 by side.
   all: rewrite (add_raw_exec_execstart _ _ _ H11), (add_raw_exec_execstart _ _ _ G11).
   all: assert (IF : Ins a10 b10) by (repeat (eapply Ins_Rel; [|eassumption]); exact I3).
   all: destruct IF as (p & q & -> & ->); unfold handle_podman_args; destruct image1;
-    eexists _, _, p, _; split; f_equal; f_equal; rewrite <- ?app_assoc; cbn [app]; reflexivity.
+    eexists _, _, p, _; split; f_equal; f_equal; rewrite <- ?app_assoc; reflexivity.
 Qed.
 End Frame.
 
-Lemma string_keys_nodup : NoDup (map fst pt_from_container_unit_string_keys).
+
+(* ---- the head segment, for each of the three option tables ---- *)
+Lemma other_of_notin k0 (keys : list (str * str)) : ~ In k0 (map fst keys) ->
+  Forall (fun p => c_CONTAINER_SECTION <> c_CONTAINER_SECTION \/ fst p <> k0) keys.
 Proof.
-  unfold pt_from_container_unit_string_keys. cbn [map fst].
-  repeat (constructor; [cbn [In]; let X := fresh in intros X; repeat (destruct X as [X|X]; [vm_compute in X; discriminate X|]); exact X|]). constructor.
+  intros H. apply Forall_forall. intros p Hp. right. intros X. apply H. rewrite <- X. apply in_map. exact Hp.
 Qed.
 
-Lemma string_keys_not_other : forallb (fun p : str * str => negb (mem_str (fst p) OTHER)) pt_from_container_unit_string_keys = true.
-Proof. vm_compute. reflexivity. Qed.
+Lemma all_strings_no_panic u sec keys : forall args r, add_all_strings u sec keys args = COk r -> no_panic_all u sec keys.
+Proof.
+  induction keys as [|[k f] rest IH]; intros args r H p Hp; [destruct Hp|]. cbn [add_all_strings] in H.
+  unfold lk_all, of_pres in H. destruct Hp as [<-|Hp]; cbn [fst].
+  - destruct (lookup_all u sec k); cbn [bind] in H; try discriminate.
+  - destruct (lookup_all u sec k); cbn [bind] in H; try discriminate. eapply IH; eassumption.
+Qed.
+
+Section Heads.
+Variables (u : unit) (k0 flag0 raw : str) (OT : list str) (pre post : list (str * str)).
+Notation sec0 := c_CONTAINER_SECTION.
+Notation u' := (add_entry u sec0 k0 raw).
+Hypothesis Hc : incl COMMON OT.
+Hypothesis HK : ~ In k0 OT.
+Hypothesis Hfresh : values_raw u sec0 k0 = [].
+Hypothesis Hraw : raw <> [].
+Ltac side := first [ left; discriminate | right; let X := fresh in intros X; apply HK; rewrite <- X; apply Hc; in_common ].
+
+(* single-valued string key *)
+Lemma head_frame_string c v : pt_from_container_unit_string_keys = pre ++ (k0, flag0) :: post ->
+  NoDup (map fst pt_from_container_unit_string_keys) -> unquote_value raw = Some (c :: v) ->
+  ~ In k0 KA -> ~ In k0 KB ->
+  forall base cname s1 s2 b1 b2 t1 t2,
+  ct_run_head u base cname s1 = COk (b1, t1) -> ct_run_head u' base cname s2 = COk (b2, t2) -> Ins [flag0; c :: v] b1 b2.
+Proof.
+  intros Htable Hnd Huq HA HB base cname s1 s2 b1 b2 t1 t2.
+  unfold ct_run_head. cbv zeta. intros R1 R2. revert R1.
+  bel. intros a1 H1. bel. intros cg1 Hc1. bel. intros a2 H2. bel. intros a3 H3. intros E1.
+  assert (Eb1 : b1 = add_bools u sec0 pt_from_container_unit_bool_keys a3) by congruence. clear E1. subst b1.
+  revert R2. bel. intros a1' H1'. bel. intros cg1' Hc1'. bel. intros a2' H2'. bel. intros a3' H3'. intros E2.
+  assert (Eb2 : b2 = add_bools u' sec0 pt_from_container_unit_bool_keys a3') by congruence. clear E2. subst b2.
+  rewrite (log_driver_same u k0 raw OT Hc HK) in H1'. rewrite H1 in H1'. injection H1' as <-.
+  rewrite (lk_add_any u sec0 k0 raw) in Hc1' by side. rewrite Hc1 in Hc1'. injection Hc1' as <-.
+  rewrite (log_opt_same u k0 raw OT Hc HK) in H2'.
+  rewrite (add_all_strings_same u k0 raw) in H3' by (apply other_of_notin; exact HA).
+  rewrite (add_bools_same u k0 raw) by (apply other_of_notin; exact HB).
+  rewrite Htable in H2, H2'. pose proof Hnd as Hnd'. rewrite Htable in Hnd'.
+  destruct (strings_frame u sec0 pre post k0 flag0 raw c v
+              (handle_log_opt u sec0 a1 ++ [L "--cgroups"; match cg1 with Some (c1 :: s) => c1 :: s | _ => L "split" end])
+              Hnd' Hfresh Huq Hraw (add_strings_no_panic _ _ _ _ _ H2)) as [F1 F2].
+  rewrite F1 in H2. rewrite F2 in H2'. injection H2 as <-. injection H2' as <-.
+  eapply Ins_Rel; [|eapply Rel_trans; [eapply add_all_strings_rel; [exact H3|exact H3']|apply add_bools_rel]].
+  eexists _, _. split; [rewrite app_assoc; reflexivity|rewrite app_assoc; reflexivity].
+Qed.
+
+(* one option per assignment *)
+Lemma head_frame_all v : pt_from_container_unit_all_string_keys = pre ++ (k0, flag0) :: post ->
+  NoDup (map fst pt_from_container_unit_all_string_keys) -> unquote_value raw = Some v ->
+  ~ In k0 KS -> ~ In k0 KB ->
+  forall base cname s1 s2 b1 b2 t1 t2,
+  ct_run_head u base cname s1 = COk (b1, t1) -> ct_run_head u' base cname s2 = COk (b2, t2) -> Ins [flag0; v] b1 b2.
+Proof.
+  intros Htable Hnd Huq HS HB base cname s1 s2 b1 b2 t1 t2.
+  unfold ct_run_head. cbv zeta. intros R1 R2. revert R1.
+  bel. intros a1 H1. bel. intros cg1 Hc1. bel. intros a2 H2. bel. intros a3 H3. intros E1.
+  assert (Eb1 : b1 = add_bools u sec0 pt_from_container_unit_bool_keys a3) by congruence. clear E1. subst b1.
+  revert R2. bel. intros a1' H1'. bel. intros cg1' Hc1'. bel. intros a2' H2'. bel. intros a3' H3'. intros E2.
+  assert (Eb2 : b2 = add_bools u' sec0 pt_from_container_unit_bool_keys a3') by congruence. clear E2. subst b2.
+  rewrite (log_driver_same u k0 raw OT Hc HK) in H1'. rewrite H1 in H1'. injection H1' as <-.
+  rewrite (lk_add_any u sec0 k0 raw) in Hc1' by side. rewrite Hc1 in Hc1'. injection Hc1' as <-.
+  rewrite (log_opt_same u k0 raw OT Hc HK) in H2'.
+  rewrite (add_strings_same u k0 raw) in H2' by (apply other_of_notin; exact HS).
+  rewrite H2 in H2'. injection H2' as <-.
+  rewrite (add_bools_same u k0 raw) by (apply other_of_notin; exact HB).
+  rewrite Htable in H3, H3'. pose proof Hnd as Hnd'. rewrite Htable in Hnd'.
+  destruct (all_strings_frame u sec0 pre post k0 flag0 raw v a2 Hnd' Hfresh Huq Hraw (all_strings_no_panic _ _ _ _ _ H3)) as [F1 F2].
+  rewrite F1 in H3. rewrite F2 in H3'. injection H3 as <-. injection H3' as <-.
+  eapply Ins_Rel; [|apply add_bools_rel].
+  eexists _, _. split; [rewrite app_assoc; reflexivity|rewrite app_assoc; reflexivity].
+Qed.
+
+(* boolean key *)
+Lemma head_frame_bool b : pt_from_container_unit_bool_keys = pre ++ (k0, flag0) :: post ->
+  NoDup (map fst pt_from_container_unit_bool_keys) -> to_bool raw = Some b ->
+  ~ In k0 KS -> ~ In k0 KA ->
+  forall base cname s1 s2 b1 b2 t1 t2,
+  ct_run_head u base cname s1 = COk (b1, t1) -> ct_run_head u' base cname s2 = COk (b2, t2) ->
+  Ins (if b then [flag0] else [flag0 ++ L "=false"]) b1 b2.
+Proof.
+  intros Htable Hnd Hb HS HA base cname s1 s2 b1 b2 t1 t2.
+  unfold ct_run_head. cbv zeta. intros R1 R2. revert R1.
+  bel. intros a1 H1. bel. intros cg1 Hc1. bel. intros a2 H2. bel. intros a3 H3. intros E1.
+  assert (Eb1 : b1 = add_bools u sec0 pt_from_container_unit_bool_keys a3) by congruence. clear E1. subst b1.
+  revert R2. bel. intros a1' H1'. bel. intros cg1' Hc1'. bel. intros a2' H2'. bel. intros a3' H3'. intros E2.
+  assert (Eb2 : b2 = add_bools u' sec0 pt_from_container_unit_bool_keys a3') by congruence. clear E2. subst b2.
+  rewrite (log_driver_same u k0 raw OT Hc HK) in H1'. rewrite H1 in H1'. injection H1' as <-.
+  rewrite (lk_add_any u sec0 k0 raw) in Hc1' by side. rewrite Hc1 in Hc1'. injection Hc1' as <-.
+  rewrite (log_opt_same u k0 raw OT Hc HK) in H2'.
+  rewrite (add_strings_same u k0 raw) in H2' by (apply other_of_notin; exact HS).
+  rewrite H2 in H2'. injection H2' as <-.
+  rewrite (add_all_strings_same u k0 raw) in H3' by (apply other_of_notin; exact HA).
+  rewrite H3 in H3'. injection H3' as <-.
+  rewrite Htable. pose proof Hnd as Hnd'. rewrite Htable in Hnd'.
+  destruct (bools_frame u sec0 pre post k0 flag0 raw b a3 Hnd' Hfresh Hraw Hb) as [F1 F2]. rewrite F1, F2.
+  eexists _, _. split; [rewrite app_assoc; reflexivity|rewrite app_assoc; reflexivity].
+Qed.
+End Heads.
+
+(* ---- closing: every key of the three tables ---- *)
+Ltac nodup_keys := cbn [map fst];
+  repeat (constructor; [cbn [In]; let X := fresh in intros X; repeat (destruct X as [X|X]; [vm_compute in X; discriminate X|]); exact X|]); constructor.
+
+Lemma string_keys_nodup : NoDup (map fst pt_from_container_unit_string_keys).
+Proof. unfold pt_from_container_unit_string_keys. nodup_keys. Qed.
+Lemma all_keys_nodup : NoDup (map fst pt_from_container_unit_all_string_keys).
+Proof. unfold pt_from_container_unit_all_string_keys. nodup_keys. Qed.
+Lemma bool_keys_nodup : NoDup (map fst pt_from_container_unit_bool_keys).
+Proof. unfold pt_from_container_unit_bool_keys. nodup_keys. Qed.
 
 Lemma mem_str_in k l : In k l -> mem_str k l = true.
 Proof. intros H. unfold mem_str. apply existsb_exists. exists k. split; [exact H|apply str_eqb_refl]. Qed.
 
-Theorem container_string_key_frame_closed podman exists_path kill_fixed mount_nl u k0 flag0 raw c v path tbl svc1 sp1 t1 svc2 sp2 t2 :
-  In (k0, flag0) pt_from_container_unit_string_keys ->
-  values_raw u c_CONTAINER_SECTION k0 = [] -> unquote_value raw = Some (c :: v) ->
-  from_container podman exists_path kill_fixed mount_nl u path tbl = COk (svc1, sp1, t1) ->
-  from_container podman exists_path kill_fixed mount_nl (add_entry u c_CONTAINER_SECTION k0 raw) path tbl = COk (svc2, sp2, t2) ->
+(* the three tables and the common keys are pairwise disjoint *)
+Lemma tables_disjoint :
+  forallb (fun k => negb (mem_str k (COMMON ++ KA ++ KB))) KS && forallb (fun k => negb (mem_str k (COMMON ++ KS ++ KB))) KA &&
+  forallb (fun k => negb (mem_str k (COMMON ++ KS ++ KA))) KB = true.
+Proof. vm_compute. reflexivity. Qed.
+
+Lemma notin_of_sweep k own rest : forallb (fun k => negb (mem_str k rest)) own = true -> In k own -> ~ In k rest.
+Proof. intros F Hin X. rewrite forallb_forall in F. specialize (F _ Hin). rewrite (mem_str_in _ _ X) in F. discriminate. Qed.
+
+Lemma raw_ne_of_unquote raw c v : unquote_value raw = Some (c :: v) -> raw <> [].
+Proof. intros H ->. vm_compute in H. discriminate. Qed.
+
+Section Closing.
+Variables (podman : str) (exists_path : str -> bool) (kill_fixed mount_nl : bool).
+Notation fc := (from_container podman exists_path kill_fixed mount_nl).
+Notation sec0 := c_CONTAINER_SECTION.
+
+Theorem container_string_key_frame_closed u k0 flag0 raw c v path tbl svc1 sp1 t1 svc2 sp2 t2 :
+  In (k0, flag0) pt_from_container_unit_string_keys -> values_raw u sec0 k0 = [] -> unquote_value raw = Some (c :: v) ->
+  fc u path tbl = COk (svc1, sp1, t1) -> fc (add_entry u sec0 k0 raw) path tbl = COk (svc2, sp2, t2) ->
   exists before1 before2 p q,
     vals svc1 SEC_S (s2l "ExecStart") = before1 ++ [quote_words (p ++ q)] /\
     vals svc2 SEC_S (s2l "ExecStart") = before2 ++ [quote_words (p ++ [flag0; c :: v] ++ q)].
 Proof.
   intros Hin Hfresh Huq R1 R2. destruct (in_split _ _ Hin) as (pre & post & Ht).
-  assert (HK : ~ In k0 OTHER).
-  { intros X. pose proof string_keys_not_other as F. rewrite forallb_forall in F. specialize (F _ Hin). cbn [fst] in F.
-    rewrite (mem_str_in _ _ X) in F. discriminate. }
-  exact (container_string_key_frame podman exists_path kill_fixed mount_nl u k0 flag0 raw c v pre post HK Ht string_keys_nodup Hfresh Huq
-           path tbl svc1 sp1 t1 svc2 sp2 t2 R1 R2).
+  pose proof tables_disjoint as D. apply andb_prop in D. destruct D as [D DB]. apply andb_prop in D. destruct D as [DS DA].
+  assert (HK : ~ In k0 (COMMON ++ KA ++ KB)) by (apply (notin_of_sweep _ KS); [exact DS|apply (in_map fst) in Hin; exact Hin]).
+  assert (Hc : incl COMMON (COMMON ++ KA ++ KB)) by (intros x Hx; apply in_or_app; left; exact Hx).
+  refine (container_key_frame podman exists_path kill_fixed mount_nl u k0 raw _ [flag0; c :: v] Hc HK _ path tbl svc1 sp1 t1 svc2 sp2 t2 R1 R2).
+  eapply head_frame_string; try eassumption; [eapply raw_ne_of_unquote; exact Huq|exact string_keys_nodup| |].
+  - intros X. apply HK. apply in_or_app. right. apply in_or_app. left. exact X.
+  - intros X. apply HK. apply in_or_app. right. apply in_or_app. right. exact X.
 Qed.
+
+Theorem container_all_key_frame_closed u k0 flag0 raw c v path tbl svc1 sp1 t1 svc2 sp2 t2 :
+  In (k0, flag0) pt_from_container_unit_all_string_keys -> values_raw u sec0 k0 = [] -> unquote_value raw = Some (c :: v) ->
+  fc u path tbl = COk (svc1, sp1, t1) -> fc (add_entry u sec0 k0 raw) path tbl = COk (svc2, sp2, t2) ->
+  exists before1 before2 p q,
+    vals svc1 SEC_S (s2l "ExecStart") = before1 ++ [quote_words (p ++ q)] /\
+    vals svc2 SEC_S (s2l "ExecStart") = before2 ++ [quote_words (p ++ [flag0; c :: v] ++ q)].
+Proof.
+  intros Hin Hfresh Huq R1 R2. destruct (in_split _ _ Hin) as (pre & post & Ht).
+  pose proof tables_disjoint as D. apply andb_prop in D. destruct D as [D DB]. apply andb_prop in D. destruct D as [DS DA].
+  assert (HK : ~ In k0 (COMMON ++ KS ++ KB)) by (apply (notin_of_sweep _ KA); [exact DA|apply (in_map fst) in Hin; exact Hin]).
+  assert (Hc : incl COMMON (COMMON ++ KS ++ KB)) by (intros x Hx; apply in_or_app; left; exact Hx).
+  refine (container_key_frame podman exists_path kill_fixed mount_nl u k0 raw _ [flag0; c :: v] Hc HK _ path tbl svc1 sp1 t1 svc2 sp2 t2 R1 R2).
+  eapply head_frame_all; try eassumption; [eapply raw_ne_of_unquote; exact Huq|exact all_keys_nodup| |].
+  - intros X. apply HK. apply in_or_app. right. apply in_or_app. left. exact X.
+  - intros X. apply HK. apply in_or_app. right. apply in_or_app. right. exact X.
+Qed.
+
+Theorem container_bool_key_frame_closed u k0 flag0 raw b path tbl svc1 sp1 t1 svc2 sp2 t2 :
+  In (k0, flag0) pt_from_container_unit_bool_keys -> values_raw u sec0 k0 = [] -> raw <> [] -> to_bool raw = Some b ->
+  fc u path tbl = COk (svc1, sp1, t1) -> fc (add_entry u sec0 k0 raw) path tbl = COk (svc2, sp2, t2) ->
+  exists before1 before2 p q,
+    vals svc1 SEC_S (s2l "ExecStart") = before1 ++ [quote_words (p ++ q)] /\
+    vals svc2 SEC_S (s2l "ExecStart") = before2 ++ [quote_words (p ++ (if b then [flag0] else [flag0 ++ s2l "=false"]) ++ q)].
+Proof.
+  intros Hin Hfresh Hraw Hb R1 R2. destruct (in_split _ _ Hin) as (pre & post & Ht).
+  pose proof tables_disjoint as D. apply andb_prop in D. destruct D as [D DB]. apply andb_prop in D. destruct D as [DS DA].
+  assert (HK : ~ In k0 (COMMON ++ KS ++ KA)) by (apply (notin_of_sweep _ KB); [exact DB|apply (in_map fst) in Hin; exact Hin]).
+  assert (Hc : incl COMMON (COMMON ++ KS ++ KA)) by (intros x Hx; apply in_or_app; left; exact Hx).
+  refine (container_key_frame podman exists_path kill_fixed mount_nl u k0 raw _ _ Hc HK _ path tbl svc1 sp1 t1 svc2 sp2 t2 R1 R2).
+  eapply head_frame_bool; try eassumption; [exact bool_keys_nodup| |].
+  - intros X. apply HK. apply in_or_app. right. apply in_or_app. left. exact X.
+  - intros X. apply HK. apply in_or_app. right. apply in_or_app. right. exact X.
+Qed.
+End Closing.
 
 (* the premises are satisfiable: Timezone=UTC added to a unit that has no Timezone *)
 Example frame_example :
